@@ -424,10 +424,14 @@ class Interp:
                 if k in env:
                     raise RaiseEx("TypeError", "multiple values for %s" % k, node)
                 env[k] = v
+            elif a.vararg and k == a.vararg.arg and isinstance(v, (list, tuple)) and self.depth == 0:
+                env[k] = tuple(v)       # harness convention: the star-args of the entry point, by name
             elif a.kwarg:
                 extra_kw[k] = v
             else:
                 raise RaiseEx("TypeError", "%s() got an unexpected keyword argument %r" % (func.name, k), node)
+        if a.vararg and a.vararg.arg not in env:
+            env[a.vararg.arg] = ()
         if a.kwarg:
             env[a.kwarg.arg] = extra_kw
         defaults = func.param_defaults()
@@ -740,7 +744,7 @@ class Interp:
         if node.id in ("str", "int", "list", "tuple", "dict", "set", "bytes", "float", "bool", "object"):
             return TypeVal(node.id)
         if node.id in ("isinstance", "len", "map", "locals", "hasattr", "any", "all", "sorted", "enumerate",
-                       "range", "zip", "getattr", "iter", "print", "min", "max", "repr", "type", "ord", "chr", "hex", "setattr", "delattr", "next", "vars", "callable", "sum", "abs"):
+                       "range", "zip", "getattr", "iter", "print", "min", "max", "repr", "type", "ord", "chr", "hex", "setattr", "delattr", "next", "vars", "callable", "sum", "abs", "hash", "float"):
             return Builtin(node.id)
         if node.id in ("ValueError", "TypeError", "KeyError", "NotImplementedError", "Exception", "StopIteration"):
             return TypeVal(node.id)
@@ -1352,6 +1356,20 @@ class Interp:
                 s = v.parts[0]
                 return Sym(s.name, "int", s.truthy)
             raise Unsupported("int(%r)" % (v,))
+        if name == "float" and pos:
+            if isinstance(pos[0], (int, float)) and not isinstance(pos[0], bool):
+                return float(pos[0])
+            if isinstance(pos[0], str):
+                try:
+                    return float(pos[0])
+                except ValueError:
+                    raise RaiseEx("ValueError", "could not convert string to float: %r" % pos[0], node)
+            raise Unsupported("float(%r)" % (pos[0],))
+        if name == "str" and pos and isinstance(pos[0], Opaque) and pos[0].attrs:
+            for meth in ("__str__", "__unicode__"):
+                m_ = self._class_method(pos[0].kind, meth)
+                if m_ is not None and m_.qual in self.summaries:
+                    return self.summaries[m_.qual](self, [pos[0]], {}, node)
         if name == "str":
             return self.to_str(pos[0]).simplify() if pos else ""
         if name in ("list", "tuple") and pos and isinstance(pos[0], (StreamVal, HostIter)):
@@ -1482,6 +1500,17 @@ class Interp:
             return max(pos) if name == "max" else min(pos)
         if name == "sum" and len(pos) >= 1 and isinstance(pos[0], (list, tuple)) and all(isinstance(x, (int, float)) for x in pos[0]):
             return sum(pos[0], *pos[1:])
+        if name == "hash" and pos and isinstance(pos[0], (str, int, tuple)):
+            return ("hash-of", pos[0])
+        if name == "float" and pos:
+            if isinstance(pos[0], (int, float)):
+                return float(pos[0])
+            if isinstance(pos[0], str):
+                try:
+                    return float(pos[0])
+                except ValueError:
+                    raise RaiseEx("ValueError", "could not convert string to float: %r" % pos[0], node)
+            raise Unsupported("float(%r)" % (pos[0],))
         if name == "abs" and pos and isinstance(pos[0], (int, float)):
             return abs(pos[0])
         if name in ("sorted", "max", "min") and len(pos) == 1 and isinstance(pos[0], (list, tuple, dict)) and set(kw) <= {"key", "reverse"}:
